@@ -242,6 +242,19 @@ def case(rng: Any, ctx: Ctx, index: int) -> None:
         (jnp.ones((2, 3), dt), -1, gen.S((3,), dt)),                              # adds a dimension
         (jnp.ones((1,), dt), 1, gen.S((4,), dt)),                                 # unit value beyond the right edge
     ]
+    if rng.integers(6) == 0:
+        # a rectangular observation matrix: the class is tagged square, so such a file must be refused (or the operator must
+        # not answer "square")
+        from furax.toast.obs_matrix import ToastObservationMatrixOperator
+        nr, nc = gen.pick(rng, [(4, 6), (6, 4), (2, 3), (5, 2)])
+        path = gen.toast_path(rng, nr, np.float32, ncol=nc)
+        try:
+            rect = ToastObservationMatrixOperator(path)
+        except Exception:  # noqa: BLE001
+            LOG.count('C08.boundary-probe', 'rectangular-toast-refused')
+        else:
+            LOG.count('C08.boundary-probe', 'rectangular-toast-accepted')
+            guarded('C08.tags', lambda: judge(rect))
     vals, axis, st3 = probes[int(rng.integers(len(probes)))]
     try:
         bad = DiagonalOperator(vals, axis_destination=axis, in_structure=st3)
